@@ -191,7 +191,7 @@ func (s *projState) killedRun(res *Result, sched Sched, op CHOp, f Faults, label
 			continue
 		}
 		if v.complete[n] {
-			in, _, _ := Inputs(s.prog, s.prog.Task(n), s.disk)
+			in, _, _ := Inputs(s.prog, s.prog.Task(n), s.withLinks(s.disk))
 			s.last[n] = &in
 			s.lastFail[n] = false
 			done = append(done, n)
